@@ -127,10 +127,10 @@ Fixpoint dedup_prev (prev : option str) (l : list str) : list str :=
       ++ dedup_prev (Some x) r
   end.
 
-(* the pinned tree starts with prevStr = "" (an empty-string value is swallowed);
-   the fixed code always writes the first value *)
-Definition init_prev : option str :=
-  if GenC11.first_value_always_written then None else Some [].
+(* the pinned tree started with prevStr = "" (an empty-string value was swallowed: build_gen (Some []));
+   the source as it is always writes the first value.  Which of the two the code does is decided by
+   the correspondence (monitor code 16), not by a fact about the statement text. *)
+Definition init_prev : option str := None.
 
 Definition enc (l : list str) : str := flat_map (fun v => v ++ [BUL]) l.
 
